@@ -186,4 +186,17 @@ META["C17"] = {
     "technique": "TLA+ batcher model incl. liveness (TLC) + trace validation of the real sender and signature tamper enumeration",
 }
 
+META["C18"] = {
+    "text": "Gossip.tla models hop-by-hop forwarding (TTL test, decrement, one peer per role excluding self), the per-agent processed cache and "
+            "network duplication; TLC checks that no message is sent on once its TTL is exhausted (also for initial TTLs <= 0), that an agent "
+            "creates tasks at most once per batch, never addresses itself and that dissemination is bounded; the pinned Send (TTL == 0 test only) "
+            "violates NeverExhausted. Real agents over loopback are driven with injected, re-published and re-delivered batches; TLC judges "
+            "every reception (ttl >= 0, lowered by exactly one from some other holder, never self-addressed), every task and the total number "
+            "of receptions per batch. The real Topology is exercised by concurrent joins/leaves and routing decisions; a crash of the process "
+            "or a nil/excluded/duplicate peer returned by Each is a violation.",
+    "note": "Trusted: memberlist delivery, TLC. Linearizability of Topology is judged by result invariants (never an excluded peer, at most one per role, "
+            "permanent members always found), not by a full linearizability checker; data races as such are outside TLA+.",
+    "technique": "TLA+ gossip model (TLC) + trace validation of real agents over memberlist + concurrent stress of the real topology",
+}
+
 NOT_APPLICABLE = {}
